@@ -92,9 +92,11 @@ theorem sendClose_JP (s : S) (c : Option Nat) (r : Option Bytes) : JP s (sendClo
     · exact sendCloseFrame_JP _ _ _ _
 
 theorem dropConnection_JP (s : S) (a : Bool) : JP s (dropConnection s a) := by
-  unfold dropConnection
+  unfold dropConnection flushQueue
   split
-  · exact JP.of_le (fun h => by simp [S.emit] at h) (fun h => h) (fun h => h)
+  · cases a
+    · exact JP.of_le (fun h => by simp [S.emit] at h) (fun h => h) (fun h => h)
+    · exact JP.of_le (fun h => by simp [S.emit] at h) (fun h => h) (fun h => h)
   · exact JP.refl s
 
 theorem failConnection_JP (s : S) (code : Nat) : JP s (failConnection s code) := by
@@ -147,9 +149,11 @@ theorem replyClose_opened (s : S) (ho : s.st = .opened) : (replyClose s).closeSe
   unfold replyClose; split <;> exact sendCloseFrame_opened _ _ _ _ ho
 
 theorem afterCloseHandshake_closeSent (s : S) (a : Bool) : (afterCloseHandshake s a).1.closeSent = s.closeSent := by
-  unfold afterCloseHandshake dropConnection
+  unfold afterCloseHandshake dropConnection flushQueue
   split
-  · dsimp only; split <;> rfl
+  · dsimp only; split
+    · cases a <;> rfl
+    · rfl
   · split <;> rfl
 
 /-- the one place where a close is marked clean: the peer's close frame arrived while we are CLOSING (our close frame
@@ -189,15 +193,15 @@ theorem connectionLost_JP (s : S) : JP s (connectionLost s) := by
   split
   · exact JP.refl s
   · refine JP.of_le ?_ ?_ ?_
-    · unfold reportClose markClosed cancelOnLost
+    · unfold reportClose unsentUnclean markClosed cancelOnLost
       intro h
-      split at h <;> split at h <;> (try split at h) <;> simp_all [S.emit]
-    · unfold reportClose markClosed cancelOnLost
+      split at h <;> split at h <;> (try split at h) <;> (try split at h) <;> simp_all [S.emit]
+    · unfold reportClose unsentUnclean markClosed cancelOnLost
       intro h
-      split <;> split <;> (try split) <;> simpa [S.emit] using h
-    · unfold reportClose markClosed cancelOnLost
+      split <;> split <;> (try split) <;> (try split) <;> simpa [S.emit] using h
+    · unfold reportClose unsentUnclean markClosed cancelOnLost
       intro h
-      split at h <;> split at h <;> (try split at h) <;> simp_all [S.emit]
+      split at h <;> split at h <;> (try split at h) <;> (try split at h) <;> simp_all [S.emit]
 
 theorem sendAutoPing_JP (s : S) : JP s (sendAutoPing s) := by
   unfold sendAutoPing
